@@ -638,16 +638,28 @@ Qed.
 Lemma subst_amp_id s : subst_amp SAmp s = s.
 Proof. induction s; cbn [subst_amp]; congruence. Qed.
 
+Lemma top_amp_root q : c_amp top_ctx q = matches SRoot q.
+Proof. destruct q as [|e [|e2 r]]; reflexivity. Qed.
+
+(* whatever the selectors, a top-level rule selects what the specification says
+   (`&` = the root element) *)
+Lemma top_rel_applies g :
+  Forall2 (fun s s' => forall k q, sapplies (c_amp top_ctx) s k q = applies s' k q) g (resolve_top g).
+Proof.
+  unfold resolve_top. induction g as [|s g IH]; cbn [map]; constructor; auto.
+  intros k q. apply (sapplies_subst (c_amp top_ctx) SRoot top_amp_root). intros k' q'. reflexivity.
+Qed.
+
+(* and has the specification's specificity when it does not use `&` *)
 Lemma top_rel g : forallb (fun s => negb (mentions_amp s)) g = true -> grp_rel top_ctx g (resolve_top g).
 Proof.
   unfold grp_rel, resolve_top. induction g as [|s g IH]; cbn [forallb map]; intros H; constructor.
   - apply andb_true_iff in H. destruct H as [H _]. rewrite mentions_has in H.
-    rewrite subst_no_amp by (destruct (has_amp s); auto; discriminate).
+    assert (Hna : has_amp s = false) by (destruct (has_amp s); auto; discriminate).
     split.
-    + intros k q. rewrite (sapplies_subst (c_amp top_ctx) SAmp), subst_amp_id; auto.
-      * intros q'. destruct q'; reflexivity.
-      * intros k' q'. reflexivity.
-    + rewrite (subst_spec (c_aspec top_ctx) SAmp), subst_amp_id; auto.
+    + intros k q. apply (sapplies_subst (c_amp top_ctx) SRoot top_amp_root). intros k' q'. reflexivity.
+    + rewrite (subst_no_amp SRoot s Hna).
+      rewrite (subst_spec (c_aspec top_ctx) SAmp), subst_amp_id; auto.
   - apply IH. apply andb_true_iff in H. tauto.
 Qed.
 
